@@ -63,6 +63,18 @@ def expected_bed(db_content):
                    (1000 * i, 1000 * i + 600, i, db_content, 1000 * i, 1000 * i + 600) for i in (1, 2))
 
 
+def fake_aligner_call(command, stdout=None, stderr=None):
+    """stand-in for the minimap2 binary building an index (-d INDEX REFERENCE): the index file is written in place, in two steps"""
+    idx = command[command.index("-d") + 1]
+    with open(command[-1], "r") as f:
+        ref = f.read()
+    with open(idx, "w") as f:
+        f.write("idx-of:")
+        f.flush()
+        f.write(ref + ";end")
+    return 0
+
+
 def make_editor(path, content):
     """an actor outside IsoQuant that replaces an input file while runs are in progress (a new release of the annotation is copied over)"""
     def body(sched):
@@ -88,7 +100,22 @@ def make_process(pid, gtf, outdir, clean_start=False, with_mapper_caches=False, 
         with open(db, "r") as f:
             content = f.read()
         res = {"gtf": g, "db": db, "db_content": content, "gtf_mtime": os.path.getmtime(gtf), "gtf_mtime_start": mt0, "complete": complete}
-        if with_mapper_caches == "annotation":
+        if with_mapper_caches == "index":
+            # FASTQ mode: the run asks for the reference index (cached one or a fresh build) and the aligner loads it
+            import src.read_mapper as RM
+            RM.get_aligner = lambda name: name
+            RM.subprocess = SimpleNamespace(call=fake_aligner_call)
+            args.reference = V + "data/ref1.fa"
+            args.data_type = "nanopore"
+            args.threads = 1
+            args.index = None
+            mapper = RM.DataSetReadMapper.__new__(RM.DataSetReadMapper)
+            mapper.aligner = "minimap2"
+            idx = RM.DataSetReadMapper.create_index(mapper, args)
+            with open(idx, "r") as f:
+                res["index_content"] = f.read()
+            res["index_path"] = idx
+        elif with_mapper_caches == "annotation":
             # FASTQ mode: the aligner step asks for the junction BED of the annotation (cached one or a fresh export) and reads it
             import src.read_mapper as RM
             args.genedb = db
@@ -172,6 +199,19 @@ def scenario(name):
             v.files[CFG + "/db_config.json"].content = json.dumps({g(1): {"genedb": db, "gtf_mtime": 11.0, "db_mtime": 31.0, "complete_db": True}})
             v.files[CFG + "/bed_config.json"].content = json.dumps({db: {"bed_filename": o(1) + "/annot1.bed", "reference_mtime": 31.0, "bed_mtime": 32.0}})
         return [(1, g(1), o(1), True, "annotation"), (2, g(1), o(2), False, "annotation")], init
+    if name == "index-clean-start-vs-cached":
+        # the index of the shared reference was built in out1 by an earlier run and is registered; run 1 is a --clean_start rerun in out1,
+        # run 2 (out2) is handed the cached index and loads it
+        def init(v):
+            base_init(v, cfg_exists=True)
+            import src.read_mapper as RM
+            idx = o(1) + "/ref1_k%s_idx" % RM.KMER_SIZE["nanopore"]
+            v.add(idx, "idx-of:x;end", mtime=33.0)
+            v.files[CFG + "/index_config.json"].content = json.dumps({V + "data/ref1.fa": {
+                "index_filename": idx, "reference_mtime": 21.0, "index_mtime": 33.0, "kmer_size": RM.KMER_SIZE["nanopore"]}})
+        return [(1, g(1), o(1), True, "index"), (2, g(1), o(2), False, "index")], init
+    if name == "index-two-fresh":
+        return [(1, g(1), o(1), False, "index"), (2, g(1), o(2), False, "index")], lambda v: base_init(v, cfg_exists=True)
     if name == "same-gtf-different-completeness":
         # the same annotation converted with and without --complete_genedb: each run must use a conversion made with its own setting
         return [(1, g(1), o(1), False, False, False), (2, g(1), o(2), False, False, True)], lambda v: base_init(v)
@@ -230,7 +270,11 @@ def make_check(specs):
             if r["db_content"] not in exps:
                 out.append(("foreign-or-partial-db", "process %d uses %s whose content is %r, expected a conversion of its own input %r" %
                             (pid, r["db"], r["db_content"], exp)))
-            if mapper == "annotation":
+            if mapper == "index":
+                if r["index_content"] != "idx-of:x;end":
+                    out.append(("foreign-or-partial-index", "process %d loads the index %s whose content is %r, expected the complete index of its "
+                                "reference" % (pid, r["index_path"], r["index_content"])))
+            elif mapper == "annotation":
                 if r["bed_content"] != expected_bed(r["db_content"]):
                     out.append(("foreign-or-partial-bed", "process %d hands %s to the aligner whose content is %r, expected the complete export of "
                                 "its database %r" % (pid, r["bed_path"], r["bed_content"], r["db_content"])))
@@ -289,6 +333,8 @@ def run(ctx):
     jobs.append(("mapper-caches", 2 if quick else 3, 60000 if quick else 400000))
     jobs.append(("bed-export-from-cached-db", 3 if quick else 4, 60000 if quick else 400000))
     jobs.append(("bed-rewrite-vs-cached-reader", 3 if quick else 4, 60000 if quick else 400000))
+    jobs.append(("index-clean-start-vs-cached", 3 if quick else 4, 60000 if quick else 400000))
+    jobs.append(("index-two-fresh", 2 if quick else 3, 60000 if quick else 400000))
     jobs.append(("gtf-rewritten-during-conversion", 2 if quick else 3, 60000 if quick else 400000))
     jobs.append(("three-processes", 1 if quick else 2, 60000 if quick else 400000))
     if not quick:
